@@ -26,9 +26,23 @@ ASSUMPTIONS = ["same arithmetic in every split: tolerance 1e-12 relative (f64), 
 @st.composite
 def case_strategy(draw, ctx):
     spec = draw(scenes.sim_scene_strategy(steps=(8, 26), shape=(6, 9)))
+    dispersive = draw(st.booleans())
+    if dispersive:
+        # a (mildly) dispersive box: the ADE polarisation arrays are time-dependent state too. Frequencies are given
+        # relative to the carrier of a 10-cell wavelength so that w0*dt stays far below the stability limit.
+        wc = 2 * 3.141592653589793 * 299792458.0 / (10 * spec.get("d", 5e-8))
+        lo, hi = draw(scenes.box_strategy(spec["shape"]))
+        planes = [(s_["axis"], s_["pos"]) for s_ in spec["sources"] if s_["type"] in ("uniform_plane", "gaussian_plane")]
+        if not any(lo[a] <= p + 1 and hi[a] >= p - 1 for a, p in planes):
+            spec["objects"].append({"name": "dispbox", "lo": lo, "hi": hi, "order": 3, "material": {
+                "eps": 2.0, "poles": [{"type": "lorentz", "w": draw(st.sampled_from([0.5, 1.5])) * wc, "g": 0.1 * wc,
+                                       "de": draw(st.sampled_from([0.5, 1.0]))}]}})
+        else:
+            dispersive = False
     if draw(st.integers(0, 3)) == 0:
-        spec["gradient"] = draw(st.sampled_from([{"method": "reversible", "ckpt": 0}, {"method": "reversible", "ckpt": 2},
-                                                 {"method": "checkpointed", "n": 3}]))
+        spec["gradient"] = draw(st.sampled_from(
+            [{"method": "checkpointed", "n": 3}] if dispersive else
+            [{"method": "reversible", "ckpt": 0}, {"method": "reversible", "ckpt": 2}, {"method": "checkpointed", "n": 3}]))
     T = spec["steps"]
     ops, cur = [], 0
     for _ in range(draw(st.integers(2, 6))):
@@ -61,6 +75,10 @@ def _snapshot(arrays):
         for k in sorted(psi):
             for i, a in enumerate(psi[k]):
                 d[f"{nm}/{k}/{i}"] = np.asarray(a)
+    for nm in ("dispersive_P_curr", "dispersive_P_prev"):
+        v = getattr(arrays.fields, nm, None)
+        if v is not None:
+            d[nm] = np.asarray(v)
     for n, stt in arrays.detector_states.items():
         for k, v in stt.items():
             d[f"det/{n}/{k}"] = np.asarray(v)
@@ -178,6 +196,6 @@ def body(ctx, case):
 
 
 SUBS = [
-    Sub(name="histories", body=body, strategy=lambda ctx: case_strategy(ctx), quick=10, thorough=320,
+    Sub(name="histories", body=body, strategy=lambda ctx: case_strategy(ctx), quick=18, thorough=320,
         lanes=("f64", "f32"), f32_fraction=0.25, quick_shards=2, rule="operation sequences vs single-call model"),
 ]
